@@ -206,7 +206,7 @@ Fixpoint stream_writes (cap : Z) (ps : list (list Z)) : list (Z * err) * list Z 
 
 (* image used by the correspondence cases: byte i of the image generated from [seed] (same function
    in harness/romtool.go) *)
-Definition fill (seed i : Z) : Z := (i * 73 + Z.shiftr i 8 * 29 + seed) mod 256.
+Definition fill (seed i : Z) : Z := Z.land (Z.lxor (Z.lxor i (Z.shiftr i 8)) (Z.shiftr i 13) + seed) 255.
 Definition mkimg (seed a n : Z) : list Z := map (fill seed) (ziota a n).
 
 (* the observed final image is shipped as the runs that differ from the initial one *)
